@@ -1,4 +1,14 @@
 (* Props/C20.v — property theorems only. Each is closed by `exact <lemma>`.
+
+   C20: "Every macro argument or result that can be represented across the dynamic-plugin boundary (numbers, strings, arrays,
+   tuples, records, tagged unions, code) and every type decodes to something equal to what was encoded. Values that cannot cross
+   the boundary are refused with an error rather than silently altered."
+   All theorems quantify over ALL values / types / byte suffixes (no depth or width bound). The second sentence is refuted for
+   Value::ErrorV (finding F10, C20_errorv_refuted) and proved for everything else (C20_refusal, C20_only_errorv_altered).
+   Keys (ExprNodeId / TypeNodeId) and, in the Type / Value serde, Symbol ids are session-local numbers: "equal" is equality of
+   the key / id, which denotes the same expression / type / name only inside one interner session (the host shares its interner
+   with the plugin through set_external_session_globals); the text of symbols inside FfiValue is carried as real UTF-8 bytes.
+
    Vocabulary (FfiCodec/Model.v): `value str` = interpreter::Value with symbols read as their text, `ffi_value` = FfiValue,
    to_ffi = Value::to_ffi_value, of_ffi = FfiValue::to_value, encode/decode_ffi = bincode 1.3 on FfiValue,
    serialize_value/deserialize_value/serialize_macro_args/deserialize_macro_args as in runtime/ffi_serde.rs,
